@@ -1,7 +1,7 @@
 CONSTANTS
   NameSeq <- N3
   Slots = {1, 2}
-  MaxNodes = 8
+  MaxNodes = 16
   MaxDepth = 2
   Actions <- RelActions
   InitDeclared = 3
